@@ -193,11 +193,19 @@ func genCase(t *rapid.T) Case {
 			o.MaxWidth = 2600
 			o.MinWidth1 = 1000
 		}
-		if rapid.IntRange(0, 5).Draw(t, "wideouts") == 0 {
+		switch rapid.IntRange(0, 11).Draw(t, "wideouts") {
+		case 0, 1:
 			// Many output wires (results of more than 64 bits).
 			o.MaxOutWidth = 40
 			o.MaxGates = 120
+		case 2:
+			// Outputs on both sides of the machine word sizes.
+			o.OutTable = []int{1, 7, 31, 32, 33, 63, 64, 64, 65, 127, 128, 129}
+			o.MaxOuts = 3
+			o.MaxGates = 450
 		}
+		// A party without input (what main(a T, b _) compiles to).
+		o.ZeroWidthArgs = 16
 		c := gen.DrawCirc(t, o)
 		cs.Circ = &c
 		nx, ny = c.In[0], c.In[1]
@@ -218,8 +226,14 @@ func genCase(t *rapid.T) Case {
 	}
 	cs.Seed = rapid.Uint64().Draw(t, "seed")
 	if cs.OT == "co" && nx+ny <= 600 && rapid.IntRange(0, 3).Draw(t, "reuse") == 0 {
-		cs.Reuse = rapid.SampledFrom([]string{"evaluator", "evaluator", "garbler", "both"}).Draw(t, "reuseparty")
+		cs.Reuse = rapid.SampledFrom([]string{"evaluator", "evaluator", "garbler", "both", "roles"}).Draw(t, "reuseparty")
 		cs.Earlier = rapid.IntRange(1, 2).Draw(t, "earlier")
+	}
+	if cs.OT == "rsa" && ny <= 10 && rapid.IntRange(0, 1).Draw(t, "rsaroles") == 0 {
+		// Two parties that keep their RSA OT objects and swap the
+		// garbler and evaluator roles from session to session.
+		cs.Reuse = "roles"
+		cs.Earlier = 2
 	}
 	cs.FragsGE = drawFrags(t, "frag_ge")
 	cs.FragsEG = drawFrags(t, "frag_eg")
@@ -329,17 +343,17 @@ func run(cs Case) ev.Outcome {
 
 	sessions := 1
 	if cs.Reuse != "" {
-		if kind != "co" || cs.Earlier < 1 || cs.Earlier > 4 {
-			return ev.Outcome{Skip: "OT reuse is generated for the co kind with 1-4 earlier sessions"}
+		if !(kind == "co" || (kind == "rsa" && cs.Reuse == "roles")) || cs.Earlier < 1 || cs.Earlier > 4 {
+			return ev.Outcome{Skip: "OT reuse is generated for the co kind (and role swapping for rsa) with 1-4 earlier sessions"}
 		}
 		switch cs.Reuse {
-		case "evaluator", "garbler", "both":
+		case "evaluator", "garbler", "both", "roles":
 		default:
 			return ev.Outcome{Skip: "unknown reuse party"}
 		}
 		sessions = cs.Earlier + 1
 	}
-	var gOT, eOT ot.OT
+	var gOT, eOT, partyP, partyQ ot.OT
 	for sn := 0; sn < sessions; sn++ {
 		last := sn == sessions-1
 		// Earlier sessions use other inputs (rotated and partly inverted).
@@ -355,11 +369,24 @@ func run(cs Case) ev.Outcome {
 		d := xport.NewDuplex(cs.FragsGE, cs.FragsEG)
 		gConn, eConn := d.Conns()
 		cfg := &env.Config{Rand: gen.NewDRBG(cs.Seed, 1+100*uint64(sn))}
-		if gOT == nil || !(cs.Reuse == "garbler" || cs.Reuse == "both") {
-			gOT = makeOT(kind, cs.Seed, 100*uint64(sn))
-		}
-		if eOT == nil || !(cs.Reuse == "evaluator" || cs.Reuse == "both") {
-			eOT = makeOT(kind, cs.Seed, 100*uint64(sn)+1)
+		if cs.Reuse == "roles" {
+			// Two parties keep their OT objects; the roles alternate,
+			// ending with P as the garbler of the judged session.
+			if partyP == nil {
+				partyP, partyQ = makeOT(kind, cs.Seed, 0), makeOT(kind, cs.Seed, 1)
+			}
+			if (sessions-1-sn)%2 == 0 {
+				gOT, eOT = partyP, partyQ
+			} else {
+				gOT, eOT = partyQ, partyP
+			}
+		} else {
+			if gOT == nil || !(cs.Reuse == "garbler" || cs.Reuse == "both") {
+				gOT = makeOT(kind, cs.Seed, 100*uint64(sn))
+			}
+			if eOT == nil || !(cs.Reuse == "evaluator" || cs.Reuse == "both") {
+				eOT = makeOT(kind, cs.Seed, 100*uint64(sn)+1)
+			}
 		}
 		gIn, eIn := bitsToInt(sx), bitsToInt(sy)
 		g, e := gOT, eOT
